@@ -3,6 +3,7 @@ import ast, copy, json, os
 import numpy as np
 from .. import posecase as pc
 from ..mtexec import f64_bits, bits_f64
+from ..bodyexec import view_of
 
 RULE = ("poses with 1–4 components (unique names), 1–5 uniquely named points each, limbs and colours, 1–2 people, 1–3 frames, distinct values per cell; get_components with every kind of request "
         "(ordered selections of components, sub-lists and permutations of points, a single point), remove_components with present and absent component / point names; compared with the Lean model "
@@ -126,6 +127,20 @@ def run(ctx):
                     bad = bad or ("removing points is not selecting the complement", pc.unhx(nc["name"]))
         if bad:
             ctx.violation(bad[0], info, {"where": bad[1]}, True, signature={"clause": bad[0]}); continue
+        # ---- the same request on the same pose with a torch body: the selection is by name, so the result may not depend on the body class
+        if b0["frames"] > 0 and b0["people"] > 0:
+            try:
+                pt = pc.build_pose(case).torch()
+                rt = pt.get_components(req, points) if mode == "get" else pt.remove_components(req, points)
+                vt, vn = view_of(rt.body, "torch"), view_of(res.body, "numpy")
+                hd = pc.diff(got["header"], pc.canon_header(rt.header))
+                what = "header" if hd else next((k for k in ("shape", "conf", "missing", "zf") if vt.get(k) != vn.get(k)), None)
+            except Exception as e:
+                what = "raises " + type(e).__name__
+            ctx.count("torch body")
+            if what:
+                ctx.violation("a selected point does not carry the values of the source point with that component and name (torch body: result differs from the NumPy body's)", info,
+                              {"what": what}, True, signature={"clause": "torch body"}); continue
         # ---- correspondence with the model
         if pc.diff(mo["components"], got["header"]["components"]):
             ctx.violation("selection: new header differs from the model's", info, {"d": pc.diff(mo["components"], got["header"]["components"])}, False); continue
